@@ -16,6 +16,7 @@ def GrantTypeClientCredentials := "client_credentials"
 def GrantTypeBearer := "urn:ietf:params:oauth:grant-type:jwt-bearer"
 def GrantTypeTokenExchange := "urn:ietf:params:oauth:grant-type:token-exchange"
 def GrantTypeImplicit := "implicit"
+def ScopeOpenID := "openid"
 def GrantTypeDeviceCode := "urn:ietf:params:oauth:grant-type:device_code"
 def ClientAssertionTypeJWTAssertion := "urn:ietf:params:oauth:client-assertion-type:jwt-bearer"
 def CodeChallengeMethodPlain := "plain"
@@ -175,6 +176,28 @@ def JWTProfileVerifier (p : Provider) : JWTProfileVerifier :=
   { Issuer := p.issuer, MaxAgeIAT := p.jwtMaxAgeIAT, Offset := p.jwtOffset, Storage := p.store.keyRegistry }
 end Provider
 
+/-- the parsed authorization request (oidc.AuthRequest) as /authorize sees it -/
+structure AuthRequestIn where
+  ClientID : String := ""
+  ResponseType : String := ""
+  RedirectURI : String := ""
+  Scopes : List String := []
+  State : String := ""
+  Nonce : String := ""
+  ResponseMode : String := ""
+  Display : String := ""
+  Prompt : List String := []
+  MaxAge : Option Nat := none
+  UILocales : List String := []
+  IDTokenHint : String := ""
+  LoginHint : String := ""
+  ACRValues : List String := []
+  CodeChallenge : String := ""
+  CodeChallengeMethod : String := ""
+  RequestParam : String := ""          -- "" = no request object
+  RequestToken : Token := default      -- the request object itself
+  deriving DecidableEq, Repr, Inhabited
+
 structure AccessTokenRequest where
   Code : String := ""
   RedirectURI : String := ""
@@ -233,6 +256,8 @@ namespace Hand
 /-- `oidc.NewSHACodeChallenge`: symbolic SHA-256 (injective by construction) -/
 def NewSHACodeChallenge (_now : Int) (v : String) : String := "S256(" ++ v ++ ")"
 def NewResponse {α : Type} (_now : Int) (x : α) : α := x
+/-- `&jwtProfileKeySet{storage, clientID}` with the reference storage behind it -/
+def jwtProfileKeySetS (storage : Store) (clientID : String) : KeySet := jwtProfileKeySet storage.keyRegistry clientID
 def unimplementedGrantError (_g : String) : String := "ErrUnsupportedGrantType"
 /-- `CreateTokenResponse(ctx, authReq, client, creator, true, code, "")` -/
 def issueForCode (_now : Int) (a : AuthReq) (c : OPClient) (_p : Provider) (_rt : Bool) (code : String) (_cur : String) : Go.R IssueFor :=
